@@ -1,7 +1,7 @@
 ---------------------------- MODULE MC_Dispatch ----------------------------
 (* Constants of the exhaustive design check of Dispatch.tla (C06):
    declarations of <= MaxDecl members drawn from DispatchCore!Universe
-   {200, 204, 302, 404, 410 with body, 419, 500, 520, default with / without content, 4XX, 5XX}, each with a choice of the
+   {200, 204, 100, 101, 103 with body, 301 with body, 302, 304, 404, 410 with body, 419, 500, 520, default with / without content, 4XX, 5XX}, each with a choice of the
    first listed response,
    x one representative per status class, class border and declared code (MCStatusReps) or every status 100..599
    x the body the server sends (MCBodies) x transport in {bundled, pass}. *)
@@ -10,11 +10,11 @@ EXTENDS Dispatch
 MCMembers    == Universe
 \* borders of every class, every numeric key of the family, registered and unregistered (199, 299, 306, 399, 419, 430, 499,
 \* 509, 520, 599 are not in http.HTTPStatus) codes
-MCStatusReps == {100, 199, 200, 204, 299, 300, 302, 306, 399, 400, 404, 410, 419, 430, 499, 500, 503, 509, 520, 599}
+MCStatusReps == {100, 101, 103, 199, 200, 204, 299, 300, 301, 302, 304, 306, 399, 400, 404, 410, 419, 430, 499, 500, 503, 509, 520, 599}
 MCStatusAll  == 100..599
 MCBodies     == Bodies
 MCBodyStatuses == MCStatusReps \ {200, 204, 299}   \* every non-2xx representative is answered with every body kind
-MCBodyStatusesCore == {100, 302, 404, 410, 419, 500, 503, 520}   \* quick: one per non-2xx class plus every numeric key
+MCBodyStatusesCore == {100, 101, 103, 301, 302, 304, 404, 410, 419, 500, 503, 520}   \* quick: one per non-2xx class plus every numeric key
 MCBodyClasses  == {"object", "array", "empty"}      \* quick: one body per way the model treats it (parses / JSON that does not fit / not JSON)
 MCBodyObject == {"object"}
 MCTransports == {"bundled", "pass"}
